@@ -84,6 +84,9 @@ pub open spec fn str_fmt_post(s: Seq<char>, fo: &core::fmt::Formatter, ff: &core
 }
 pub assume_specification[ <str as core::fmt::Display>::fmt ](s: &str, f: &mut core::fmt::Formatter<'_>) -> (r: core::result::Result<(), core::fmt::Error>)
     ensures str_fmt_post(s@, old(f), final(f), r);
+// Formatter::pad is what `<str as Display>::fmt` calls: the same effect
+pub assume_specification<'a>[ core::fmt::Formatter::<'a>::pad ](f: &mut core::fmt::Formatter<'a>, s: &str) -> (r: core::result::Result<(), core::fmt::Error>)
+    ensures str_fmt_post(s@, old(f), final(f), r);
 // writing without padding: a different effect, so that "wrote the name with write_str" is not "formatted like a &str"
 pub assume_specification<'a>[ core::fmt::Formatter::<'a>::write_str ](f: &mut core::fmt::Formatter<'a>, s: &str) -> (r: core::result::Result<(), core::fmt::Error>)
     ensures fmt_spec(final(f)) == fmt_spec(old(f)), fmt_out(final(f)) == fmt_out(old(f)) + s@;
